@@ -19,9 +19,21 @@ vs positional arguments and reordered independent statements do not matter.
   C02.AVAIL  the headroom table handed to _distribute_power is written with max(0, upper - soc) /
              max(0, soc - lower) of the keyed battery; the ratio is k * pow(headroom[own battery], exponent);
              every non-zero cell creation and every top-up happens on a path that established that the
-             set's own ratio / allocation is not zero.
-  C02.BOOK   per path of the reservation loops the distributed-power ledger changes by what the cells
-             receive; deficit covering moves reserve from the donor's entry to the deficit.
+             set's own ratio / allocation is not zero; every result of _distribute_power is the bounded
+             split or all zeros.
+  C02.BOOK   the remainder handed to the top-up is request - ledger; the ledger starts at zero and per path
+             of the reservation loops changes by what the cells receive; deficit covering runs while a
+             deficit remains, moves reserve from the donor's entry to the deficit, takes at most what the
+             donor holds and gives up only when nothing is left to take.
+  C02.RES    per allocating path of the reservation loop: one ledger (starting at zero) grows by
+             max(share, min_power); share = (request - ledger) * q with the element's own ratio in q; the
+             reserve stored is cap - min_power, or share - min_power under min_power <= share <= cap; a share
+             below min_power records share - min_power as deficit; a skipped group reserves nothing.
+  C02.TAB    _inclusion_exclusion_bounds stores per component id that component's own bound of the table's
+             kind in the requested direction (upper / negated lower; inclusion may be clipped further);
+             consume asks for the consume tables, supply for the supply tables.
+  C02.SIGN   consume: request handed on unchanged, result returned untouched; supply: request negated,
+             every set-point of that result negated back.
   C02.SOCAGG a group's SoC and both SoC limits are the same aggregate of the batteries' values.
   C02.ADM    the admission check precedes the distribution on every path, its verdict is honoured, both see
              the same data; whatever it admits is outside the exclusion zone / inside the inclusion bounds
@@ -32,6 +44,7 @@ The numeric range of the proportional shares is not decided.
 from __future__ import annotations
 
 import ast
+import copy
 from typing import Any
 
 from ..engine.cfg import CFG
@@ -40,8 +53,10 @@ from ..engine.report import AnalysisError, Run
 from ..engine.resolver import FuncInfo, Program, body_walk
 from ..engine.terms import Poly, TermEval
 from ..engine.util import find_calls, method_call, nodes_with_call, u
-from ._c02_util import (BDA, BM, MOD, MinMax, Region, Roles, all_calls, at, at_least, callee, ctor_args,
-                        discover_roles, fields_of, is_zero, nonzero_established, prep, regions, writes)
+from ._c02_util import (BDA, BM, MOD, MinMax, Region, Roles, Wrong, all_calls, at, at_least, callee, ctor_args,
+                        discover_roles, fields_of, is_zero, negative_established, nonzero_established, ordered,
+                        zero_test,
+                        prep, regions, strictly, table_sources, test_paths, the_call, writes)
 
 
 # --------------------------------------------------------------------------------------------- shapes
@@ -134,7 +149,12 @@ _ROLES: list[Any] = []          # [program, roles] of the program analysed last
 
 def _roles(prog: Program) -> Roles:
     if not _ROLES or _ROLES[0] is not prog:
-        _ROLES[:] = [prog, discover_roles(prog, _headroom_table(prog))]
+        try:
+            _ROLES[:] = [prog, discover_roles(prog, _headroom_table(prog))]
+        except Wrong as w:
+            _ROLES[:] = [prog, w]
+    if isinstance(_ROLES[1], Wrong):
+        raise _ROLES[1]
     return _ROLES[1]
 
 
@@ -263,9 +283,52 @@ def check_inv(run: Run, prog: Program) -> None:
         raise AnalysisError(f"{fn.qual}: set-point table not identified from the returns ({sorted(outs)})")
     out = next(iter(outs))
     sites: set[tuple[int, str]] = set()
-    for r in regions(fn.node):
+    regs = regions(fn.node)
+    before = len(run.violations)
+    # tables merged wholesale into the result (`result.update(part)`) are part of the result
+    tables = {out}
+    grew = True
+    while grew:
+        grew = False
+        for r in regs:
+            for p, _st in r.paths:
+                for e in p.calls(lambda c: isinstance(c.func, ast.Attribute) and c.func.attr == "update"
+                                 and u(c.func.value) in tables and len(c.args) == 1 and not c.keywords):
+                    a = e.node.args[0]  # type: ignore[attr-defined]
+                    if isinstance(a, ast.Name) and a.id not in tables:
+                        tables.add(a.id)
+                        grew = True
+
+    def is_out(t: ast.AST, _v: ast.AST | None = None) -> bool:
+        return isinstance(t, ast.Subscript) and u(t.value) in tables
+
+    # every pass through a loop that hands out set-points stores one (directly or in a nested loop)
+    storing = {id(r.loop) for r in regs if r.kind == "loop" and any(
+        writes(p, is_out) for p, _st in r.paths)}
+    grew = True
+    while grew:
+        grew = False
+        for r in regs:
+            if r.kind == "loop" and id(r.loop) not in storing and any(
+                    e.kind == "loop" and id(e.orig) in storing for p, _st in r.paths for e in p.effects):
+                storing.add(id(r.loop))
+                grew = True
+    for r in regs:
+        if r.kind != "loop" or id(r.loop) not in storing:
+            continue
+        for p, st in r.paths:
+            if st not in ("next", "continue"):
+                continue
+            has = bool(writes(p, is_out)) or any(
+                e.kind == "loop" and id(e.orig) in storing for e in p.effects)
+            run.check(has, "C02.INV", fn.qual, f"loop at line {getattr(r.loop, 'lineno', '?')}: pass without a store",
+                      f"a pass through this loop stores no set-point into `{out}`: the inverter is left without "
+                      "a (zero or bounded) set-point while the group's power is still accounted for",
+                      node=at(p.conds[-1][3] if p.conds else getattr(r.loop, "lineno", 0)), file=fn.file,
+                      path=p.describe(), instance=f"{fn.qual}: every pass through a set-point loop stores a set-point")
+    for r in regs:
         for p, _st in r.paths:
-            for e, tgt, val in writes(p, lambda t, _v: _sub(t, out)):
+            for e, tgt, val in writes(p, is_out):
                 idx = u(tgt.slice)  # type: ignore[attr-defined]
                 text = f"{u(tgt)} = {u(val)}"
                 if is_zero(val):
@@ -309,7 +372,7 @@ def check_inv(run: Run, prog: Program) -> None:
                           "remaining`: an inverter can be commanded inside its exclusion zone",
                           node=at(e.lineno), file=fn.file, path=p.describe(),
                           instance=f"{fn.qual}: split set-point guarded by excl[i] <= remaining")
-    if len(sites) < 3 or not any(k == "split" for _l, k in sites):
+    if (len(sites) < 3 or not any(k == "split" for _l, k in sites)) and len(run.violations) == before:
         raise AnalysisError(f"{fn.qual}: expected >=3 set-point stores incl. the per-inverter split, found "
                             f"{sorted(sites)}")
 
@@ -321,28 +384,36 @@ def check_avail(run: Run, prog: Program) -> None:
                         ("_distribute_supply_power", ("soc", "soc_lower_bound"))):
         fn = prep(prog, f"{BDA}.{fname}")
         run.analysed(fn.qual)
-        table = roles.headroom.get(fname)
-        if table is None:
+        hr = roles.headroom.get(fname)
+        if hr is None:
             run.violation("C02.AVAIL", fn.qual, "headroom table handed to _distribute_power",
                           "the table that carries the SoC headroom into the availability ratio cannot be "
                           "identified (the ratio is not a power of one headroom table)", node=fn.node, file=fn.file)
             continue
-        stores = []
-        for r in regions(fn.node):
-            for p, _st in r.paths:
-                stores.extend(writes(p, lambda t, _v: _sub(t, table)))
-        ok = bool(stores)
-        for _e, tgt, val in stores:
-            key = tgt.slice  # type: ignore[attr-defined]
+        sources = table_sources(prog, fn, hr[1], hr[0])
+        if sources is None:
+            raise AnalysisError(f"{fn.qual}: cannot tell how the SoC headroom table `{u(hr[0])}` is built")
+
+        def clamped(key: ast.AST, val: ast.AST) -> bool:
             if not (isinstance(key, ast.Attribute) and key.attr == "component_id"):
-                ok = False
-                continue
+                return False
             bat = u(key.value)
             mm = MinMax()
             got = mm.clamp(mm.ev(val))
-            ok = ok and got is not None and got[0] == "max" and len(got[1]) == 2 and any(
+            return got is not None and got[0] == "max" and len(got[1]) == 2 and any(
                 a.is_zero() for a in got[1]) and any(
                 a == Poly.atom(f"{bat}.{want[0]}") - Poly.atom(f"{bat}.{want[1]}") for a in got[1])
+
+        ok = bool(sources)
+        for kind, src in sources:
+            if kind == "comp":
+                ok = ok and clamped(src.key, src.value)
+                continue
+            stores = []
+            for r in regions(fn.node):
+                for p, _st in r.paths:
+                    stores.extend(writes(p, lambda t, _v: _sub(t, src)))
+            ok = ok and bool(stores) and all(clamped(tgt.slice, val) for _e, tgt, val in stores)  # type: ignore[attr-defined]
         run.check(ok, "C02.AVAIL", fn.qual, f"headroom[battery] = max(0.0, battery.{want[0]} - battery.{want[1]})",
                   "the SoC headroom in the requested direction is not clamped at zero / uses the "
                   "wrong limit: a battery at or beyond its SoC limit keeps a positive share",
@@ -372,6 +443,160 @@ def check_avail(run: Run, prog: Program) -> None:
                   instance=f"{dp.qual}: non-zero allocation depends on the loop element's own ratio")
 
 
+# --------------------------------------------------------------------------------------------- TAB / SIGN
+def check_tab(run: Run, prog: Program) -> None:
+    """The two bound tables hold, per component id, that component's own bound of the table's kind in the
+    requested direction: consume -> the upper bound, supply -> the negated lower bound (so that the
+    allocation routines work on magnitudes); an inclusion entry may additionally be clipped (min for upper,
+    max for lower bounds).  The entry points ask for the direction they serve."""
+    roles = _roles(prog)
+    fn = prep(prog, f"{BDA}._inclusion_exclusion_bounds")
+    run.analysed(fn.qual)
+    if roles.flag is None:
+        raise AnalysisError(f"{fn.qual}: the direction parameter (a boolean constant at the call sites) was not found")
+    word = {"incl": "inclusion", "excl": "exclusion"}
+    n = 0
+    for r in regions(fn.node):
+        for p, _st in r.paths:
+            for e, tgt, val in writes(p, lambda t, _v: isinstance(t, ast.Subscript) and u(t.value) in roles.tables):
+                n += 1
+                kind = roles.tables[u(tgt.value)]  # type: ignore[attr-defined]
+                text = f"{u(tgt)} = {u(val)}"
+                supply = p.outcome(("truthy", roles.flag))
+                key = tgt.slice  # type: ignore[attr-defined]
+                ok = supply is not None and isinstance(key, ast.Attribute) and key.attr == "component_id"
+                if ok:
+                    comp = u(key.value)  # type: ignore[attr-defined]
+                    side = "lower" if supply else "upper"
+                    own = [Poly.atom(f"{comp}.power_bounds.{word[kind]}_{side}"),
+                           Poly.atom(f"{comp}.active_power_{word[kind]}_{side}_bound")]
+                    mm = MinMax()
+                    v = mm.ev(val)
+                    w = -v if supply else v
+                    ok = w in own
+                    if not ok and kind == "incl":
+                        got = mm.clamp(w)
+                        ok = got is not None and got[0] == ("max" if supply else "min") and any(a in own for a in got[1])
+                run.check(ok, "C02.TAB", fn.qual, text,
+                          f"the {word[kind]} table entry of a component is not that component's own {word[kind]} "
+                          "bound of the requested direction (upper bound for consume, negated lower bound for "
+                          "supply; an inclusion bound may only be clipped further): set-points are bounded by the "
+                          "wrong limit", node=at(e.lineno), file=fn.file, path=p.describe(),
+                          instance=f"{fn.qual}: {word[kind]} table, {'supply' if supply else 'consume'} direction: "
+                                   "own bound of the keyed component")
+    if n < 4:
+        raise AnalysisError(f"{fn.qual}: only {n} bound-table stores found")
+    for fname, want in (("_distribute_consume_power", False), ("_distribute_supply_power", True)):
+        efn = prog.func(f"{BDA}.{fname}")
+        a = roles.entry_flag.get(fname)
+        ok = isinstance(a, ast.Constant) and a.value is want
+        run.check(ok, "C02.TAB", efn.qual, f"_inclusion_exclusion_bounds(..., {roles.flag}={u(a) if a is not None else '?'})",
+                  f"the {'supply' if want else 'consume'} path asks for the bound tables of the other direction: "
+                  "set-points are bounded by the limits of the opposite sign", node=efn.node, file=efn.file,
+                  instance=f"{efn.qual}: asks for the {'supply' if want else 'consume'} tables")
+
+
+def check_sign(run: Run, prog: Program) -> None:
+    """Sign mirror as far as the bounds need it: the consume path hands the request on unchanged and returns
+    the result untouched; the supply path hands on the negated request (the tables hold magnitudes) and
+    negates every set-point of the result before returning that result."""
+    roles = _roles(prog)
+    ieb = _own_params(prog.func(f"{BDA}._inclusion_exclusion_bounds"))
+    dpp = _own_params(prog.func(f"{BDA}._distribute_power"))
+    req_param: str | None = None
+    te = TermEval()
+    for fname, sign in (("_distribute_consume_power", 1), ("_distribute_supply_power", -1)):
+        fn = prep(prog, f"{BDA}.{fname}")
+        run.analysed(fn.qual)
+        regs = regions(fn.node)
+        passed_on = set()
+        for _r, _p, e in all_calls(regs, "self._inclusion_exclusion_bounds"):
+            passed_on |= {v.id for v in positional(e.node, ieb).values() if isinstance(v, ast.Name)}  # type: ignore[arg-type]
+        own = [x for x in _own_params(fn) if x not in passed_on]
+        if len(own) != 1:
+            raise AnalysisError(f"{fn.qual}: the request parameter was not identified ({own})")
+        args = roles.entry_args[fname]
+        if req_param is None:
+            hits = [k for k in dpp if k in args and te.ev(args[k]) == Poly.atom(own[0])]
+            if len(hits) != 1:
+                raise AnalysisError(f"{fn.qual}: the request is not handed to _distribute_power unchanged")
+            req_param = hits[0]
+        a = args.get(req_param)
+        want = Poly.atom(own[0]) if sign == 1 else -Poly.atom(own[0])
+        run.check(a is not None and te.ev(a) == want, "C02.SIGN", fn.qual, f"_distribute_power(..., {u(a)}, ...)",
+                  "the request is not handed to the allocation " + ("unchanged" if sign == 1 else "negated (the "
+                  "supply tables hold magnitudes)") + ": the allocation works against bounds of the wrong sign "
+                  "or on a different amount", node=fn.node, file=fn.file,
+                  instance=f"{fn.qual}: request handed on {'unchanged' if sign == 1 else 'negated'}")
+        calls = all_calls(regs, "self._distribute_power")
+        calls = [c for c in calls if c[0].kind == "top"] or calls
+        res_text = u(calls[0][2].node)
+        touched = [(r, p, t, v) for r in regs for p, _st in r.paths
+                   for _e, t, v in writes(p, lambda t, _v: ".distribution" in u(t))]
+        returned = all(p.exit != "return" or (p.ret is not None and u(p.ret) == res_text) for p, _st in regs[0].paths)
+        if sign == 1:
+            run.check(not touched and returned, "C02.SIGN", fn.qual, "result of _distribute_power returned untouched",
+                      "the consume path changes the set-points after they were bounded, or returns something else",
+                      node=fn.node, file=fn.file, instance=f"{fn.qual}: bounded result returned untouched")
+            continue
+        ok = returned
+        loops = [r for r in regs if r.kind == "loop" and r.element() is not None and r.headers and all(
+            u(h) in (f"{res_text}.distribution", f"{res_text}.distribution.keys()") for h in r.headers)]
+        ok = ok and len(loops) == 1
+        for r in loops:
+            raw = u(r.loop.iter)  # type: ignore[union-attr]
+            base = raw[:-len(".keys()")] if raw.endswith(".keys()") else raw
+            tgt_text = f"{base}[{r.element()}]"
+            for p, st in r.paths:
+                ws = writes(p, lambda t, _v: u(t) == tgt_text)
+                ok = ok and st in ("next", "continue") and len(ws) == 1 and te.ev(ws[0][2]) == -Poly.atom(tgt_text)
+        ok = ok and all(any(r is lr for lr in loops) for r, _p, _t, _v in touched)
+        run.check(ok, "C02.SIGN", fn.qual, "every set-point of the result negated, that result returned",
+                  "the supply path does not negate every set-point of the (magnitude) result exactly once before "
+                  "returning it: inverters are commanded with the sign of the opposite direction, outside the "
+                  "bounds that were applied", node=fn.node, file=fn.file,
+                  instance=f"{fn.qual}: every set-point negated back, that result returned")
+
+
+def check_exits(run: Run, prog: Program) -> None:
+    """Every result of _distribute_power carries either the per-inverter split of the cells or all zeros
+    (nothing available -> nothing commanded)."""
+    dp = prep(prog, f"{BDA}._distribute_power")
+    rf = fields_of(prog, f"{MOD}:DistributionResult")
+
+    def zero_table(e: ast.AST | None) -> bool:
+        if isinstance(e, ast.Dict):
+            return all(is_zero(v) for v in e.values)
+        if isinstance(e, ast.DictComp):
+            return is_zero(e.value)
+        return False
+
+    n = 0
+    for p, _st in regions(dp.node)[0].paths:
+        if p.exit != "return":
+            continue
+        n += 1
+        ok, split = False, False
+        if isinstance(p.ret, ast.Call) and callee(p.ret) == "DistributionResult":
+            d = ctor_args(p.ret, rf, dp.qual).get(rf[0])
+            if isinstance(d, ast.Subscript) and callee(d.value) == "self._distribute_multi_inverter_pairs":
+                ok = split = True
+            elif isinstance(d, ast.Name):
+                binds = [s.value for s in body_walk(dp.node) if isinstance(s, (ast.Assign, ast.AnnAssign))
+                         and any(isinstance(t, ast.Name) and t.id == d.id
+                                 for t in (s.targets if isinstance(s, ast.Assign) else [s.target]))]
+                ok = bool(binds) and all(zero_table(b) for b in binds)
+            else:
+                ok = zero_table(d)
+        run.check(ok, "C02.AVAIL", dp.qual, f"return {u(p.ret)[:120]}",
+                  "a result of _distribute_power carries set-points that are neither the bounded per-inverter "
+                  "split nor all zero (e.g. the nothing-available exit commands a non-zero power)",
+                  node=at(p.lineno), file=dp.file, path=p.describe(),
+                  instance=f"{dp.qual}: result is the " + ("bounded split" if split else "all-zero table"))
+    if n < 1:
+        raise AnalysisError(f"{dp.qual}: no returning path")
+
+
 # --------------------------------------------------------------------------------------------- BOOK
 def _delta(te: TermEval, p: Any, name: str) -> Poly:
     """Change of the local `name` along path `p` of a loop body (zero when it is not rebound)."""
@@ -397,7 +622,10 @@ def check_book(run: Run, prog: Program) -> None:
     # the ledger: the remainder handed to the top-up is `<request parameter> - <ledger after the loops>`
     grp = _own_params(prog.func(f"{BDA}._greedy_distribute_remaining_power"))
     ledgers: set[str] = set()
-    for _r, _p, e in all_calls(regs, "self._greedy_distribute_remaining_power"):
+    request = None
+    seen_args: list[str] = []
+    for _r, _p, e in the_call(regs, "self._greedy_distribute_remaining_power", dp, "C02.BOOK"):
+        seen_args.append(u(e.node))
         for a in positional(e.node, grp).values():  # type: ignore[arg-type]
             poly = te.ev(a)
             pos = [m for m, c in poly.terms.items() if c == 1]
@@ -407,10 +635,21 @@ def check_book(run: Run, prog: Program) -> None:
                 m = re.fullmatch(r"<(\w+)@loop\d+>", neg[0][0][0])
                 if m and neg[0][0][1] == 1:
                     ledgers.add(m.group(1))
+                    request = pos[0][0][0]
     if len(ledgers) != 1:
-        raise AnalysisError(f"{dp.qual}: the remainder handed to the top-up is not `request - ledger` "
-                            f"(ledger candidates {sorted(ledgers)})")
+        run.violation("C02.BOOK", dp.qual, seen_args[0] if seen_args else "top-up call",
+                      "the remainder handed to the top-up is not `request - <what the loops booked as "
+                      "distributed>`: the top-up adds to (or takes back from) the groups an amount that is not "
+                      "what is left of the request", node=dp.node, file=dp.file)
+        return
     ledger = next(iter(ledgers))
+    # the ledger starts at zero (every binding outside the loops is a zero)
+    starts = _bindings_outside_loops(dp.node, ledger)
+    run.check(bool(starts) and all(is_zero(v) for v in starts), "C02.BOOK", dp.qual,
+              f"{ledger} = {', '.join(u(v) for v in starts) or '?'} before the loops",
+              f"the distributed-power ledger `{ledger}` does not start at zero: the remainder handed to the "
+              "top-up is off by that amount from the first call on", node=dp.node, file=dp.file,
+              instance=f"{dp.qual}: the distributed-power ledger starts at zero")
 
     def cell_gain(p: Any) -> tuple[Poly, list[tuple[str, Poly]]]:
         total, incs = Poly(), []
@@ -464,10 +703,13 @@ def check_book(run: Run, prog: Program) -> None:
                   node=at(getattr(r.loop, "lineno", 0)), file=dp.file, path=bad.describe() if bad else None,
                   instance=f"{dp.qual}: loop #{k} books exactly what its cells receive")
     # (b)
+    if len(reserve) != 1 and any(v.rule == "C02.BOOK" for v in run.violations):
+        return      # already reported: the loop that hands the reserve to the cells does not book what they get
     if len(reserve) != 1:
         raise AnalysisError(f"{dp.qual}: the reserve table (whose entries are added to the cells and booked) "
                             f"was not identified: {sorted(reserve)}")
     res = next(iter(reserve))
+    deficit_tables: set[str] = set()
     n = 0
     for r in loops:
         if r in alloc:
@@ -476,21 +718,48 @@ def check_book(run: Run, prog: Program) -> None:
         if not any(w for _p, w in paths):
             continue
         q: Region | None = r
+        q0: Region | None = None
         covered = None
         while q is not None and covered is None:
             if q.kind == "loop" and isinstance(q.loop, (ast.For, ast.AsyncFor)) and q.cell_pairs():
-                covered = q.cell_pairs()[0][1]
+                covered, q0 = q.cell_pairs()[0][1], q
             q = q.parent
         if covered is None:
             raise AnalysisError(f"{dp.qual}: line {getattr(r.loop, 'lineno', '?')}: the reserve table is changed "
                                 "outside a loop over the deficits")
+        it = q0.loop.iter if q0 is not None else None  # type: ignore[union-attr]
+        if isinstance(it, ast.Call) and isinstance(it.func, ast.Attribute) and isinstance(it.func.value, ast.Name):
+            deficit_tables.add(it.func.value.id)
+        if isinstance(r.loop, ast.While):
+            entered = [tp for tp, o in test_paths(r.loop.test) if o]
+            run.check(bool(entered) and all(nonzero_established(tp, covered) or negative_established(tp, covered)
+                                            for tp in entered), "C02.BOOK", dp.qual,
+                      f"while {u(r.loop.test)}",
+                      f"the covering loop is entered without having established that `{covered}` is a remaining "
+                      "(non-zero / negative) deficit: deficits stay uncovered, more than the request stays "
+                      "reserved and the top-up takes the difference back from the first group",
+                      node=r.loop, file=dp.file,
+                      instance=f"{dp.qual}: deficit covering #{n + 1} runs while a deficit remains")
         ok, bad = True, None
-        for p, ws in paths:
-            moved = _delta(te, p, covered)
+        ta = TermEval(atom_hook=_item_alias)
+        norm = _Items(prog)
+        within, bad_w, gives_up, bad_g, n_break = True, None, True, None, 0
+        for (p, ws), (_p2, st) in zip(paths, r.paths):
+            moved = (ta.ev(norm.visit(copy.deepcopy(p.env[covered]))) - Poly.atom(covered)) if covered in p.env else Poly()
+            known = _norm_conds(p, norm)
             for _e, tgt, val in ws:
-                moved = moved + te.ev(val) - Poly.atom(u(tgt))
+                old, new = ta.ev(norm.visit(copy.deepcopy(tgt))), ta.ev(norm.visit(copy.deepcopy(val)))
+                moved = moved + new - old
+                # (e) a donor gives at most what it holds: the entry becomes zero, or changes by an amount
+                #     the path established to be covered by the entry
+                if not new.is_zero() and not _covered_by(known, new - old, old):
+                    within, bad_w = False, bad_w or p
             if not moved.is_zero():
                 ok, bad = False, bad or p
+            if st == "break":
+                n_break += 1
+                if not _nothing_left(p, res):
+                    gives_up, bad_g = False, bad_g or p
         n += 1
         run.check(ok, "C02.BOOK", dp.qual, f"loop at line {getattr(r.loop, 'lineno', '?')}: {res} vs {covered}",
                   f"deficit covering: on a path the change of `{covered}` is not the negated change of the "
@@ -499,8 +768,249 @@ def check_book(run: Run, prog: Program) -> None:
                   "the first group, which ends inside its exclusion zone",
                   node=at(getattr(r.loop, "lineno", 0)), file=dp.file, path=bad.describe() if bad else None,
                   instance=f"{dp.qual}: deficit covering #{n} moves reserve from the donor to the deficit")
+        run.check(within, "C02.BOOK", dp.qual, f"loop at line {getattr(r.loop, 'lineno', '?')}: amount taken from {res}",
+                  f"deficit covering: an entry of `{res}` is reduced by an amount that the path has not "
+                  "established to be at most what the entry holds: the donor's reserve becomes negative and the "
+                  "donor ends below its minimum power", node=at(getattr(r.loop, "lineno", 0)), file=dp.file,
+                  path=bad_w.describe() if bad_w else None,
+                  instance=f"{dp.qual}: deficit covering #{n}: a donor gives at most its reserve")
+        if n_break:
+            run.check(gives_up, "C02.BOOK", dp.qual, f"loop at line {getattr(r.loop, 'lineno', '?')}: break",
+                      f"deficit covering gives up on a path that has not established that `{res}` is empty or that "
+                      "the chosen donor holds nothing: deficits stay uncovered although reserve is available",
+                      node=at(getattr(r.loop, "lineno", 0)), file=dp.file, path=bad_g.describe() if bad_g else None,
+                      instance=f"{dp.qual}: deficit covering #{n} gives up only when nothing is left to take")
     if n < 1:
         raise AnalysisError(f"{dp.qual}: no deficit covering over `{res}` found")
+    _check_res(run, prog, dp, request, res, next(iter(deficit_tables)) if len(deficit_tables) == 1 else None)
+
+
+def _item_alias(e: ast.AST, _te: TermEval) -> Poly | None:
+    """`d[t[0]]` with `t = max(d.items(), ...)` (or min) is the value `t[1]` of that very item."""
+    if isinstance(e, ast.Subscript) and isinstance(e.value, ast.Name) and isinstance(e.slice, ast.Subscript) \
+            and isinstance(e.slice.slice, ast.Constant) and e.slice.slice.value == 0:
+        t = e.slice.value
+        if isinstance(t, ast.Call) and u(t.func) in ("max", "min") and t.args \
+                and u(t.args[0]) == f"{e.value.id}.items()":
+            return Poly.atom(f"{u(t)}[1]")
+    return None
+
+
+class _Items(ast.NodeTransformer):
+    """`C(*t).<field i>` of a dataclass C is `t[i]` (constructor semantics), so that a snapshot of a
+    dict item and the item itself are one term."""
+
+    def __init__(self, prog: Program) -> None:
+        self.prog = prog
+
+    def visit_Attribute(self, node: ast.Attribute) -> ast.AST:  # noqa: N802
+        self.generic_visit(node)
+        c = node.value
+        if isinstance(c, ast.Call) and isinstance(c.func, ast.Name) and len(c.args) == 1 and not c.keywords \
+                and isinstance(c.args[0], ast.Starred):
+            try:
+                flds = fields_of(self.prog, f"{MOD}:{c.func.id}")
+            except (AnalysisError, KeyError):
+                return node
+            if node.attr in flds:
+                return ast.Subscript(value=c.args[0].value, slice=ast.Constant(flds.index(node.attr)), ctx=ast.Load())
+        return node
+
+
+def _norm_conds(p: Any, norm: _Items) -> dict[Any, Any]:
+    """Outcome per canonical condition of the path, with item snapshots normalised; ('close', a, b) -> True for
+    an established math.isclose(a, b)."""
+    from ..engine.sympath import cond_key
+
+    known: dict[Any, Any] = {}
+    for _k, _ko, atom, _ln, o in p.conds:
+        a = norm.visit(copy.deepcopy(atom))
+        key, pol = cond_key(a)
+        known[key] = (o == pol)
+        if isinstance(a, ast.Call) and u(a.func) in ("math.isclose", "isclose") and len(a.args) >= 2 and o:
+            known[("close", frozenset((u(a.args[0]), u(a.args[1]))))] = True
+    return known
+
+
+def _covered_by(known: dict[Any, Any], change: Poly, old: Poly) -> bool:
+    """The conditions establish `-change <= old` for a change of one term (±x) of an entry worth `old`."""
+    o = old.as_atom()
+    if o is None or len(change.terms) != 1:
+        return False
+    (mono, coeff), = change.terms.items()
+    if len(mono) != 1 or mono[0][1] != 1 or coeff not in (1, -1):
+        return False
+    amount = mono[0][0] if coeff == -1 else f"-{mono[0][0]}"
+    return (known.get(("<=", amount, o)) is True or known.get(("<", amount, o)) is True
+            or known.get(("<", o, amount)) is False or known.get(("<=", o, amount)) is False
+            or known.get(("close", frozenset((o, amount)))) is True)
+
+
+def _nothing_left(p: Any, res: str) -> bool:
+    """A condition of the path says that the reserve table is empty or that a value taken from it is
+    (close to) zero or negative."""
+    if p.outcome(("truthy", res)) is False:
+        return True
+    for _k, _ko, atom, _ln, o in p.conds:
+        ops: list[ast.AST] = []
+        if isinstance(atom, ast.Call) and atom.args:
+            ops = [atom.args[0]]
+        elif isinstance(atom, ast.Compare) and len(atom.ops) == 1:
+            ops = [atom.left, atom.comparators[0]]
+        for x in ops:
+            t = u(x)
+            if res not in t:
+                continue
+            z = zero_test(atom, t)
+            if z is not None and o == z:
+                return True
+            if isinstance(atom, ast.Compare):
+                left, op, right = atom.left, atom.ops[0], atom.comparators[0]
+                if u(left) == t and is_zero(right) and ((isinstance(op, ast.Lt) and o) or (isinstance(op, ast.GtE) and not o)):
+                    return True
+                if u(right) == t and is_zero(left) and ((isinstance(op, ast.Gt) and o) or (isinstance(op, ast.LtE) and not o)):
+                    return True
+    return False
+
+
+def _bindings_outside_loops(fn: ast.AST, name: str) -> list[ast.AST]:
+    """Values bound to the local `name` by statements that are not inside a loop."""
+    out: list[ast.AST] = []
+
+    def suite(stmts: list[ast.stmt]) -> None:
+        for st in stmts:
+            if isinstance(st, (ast.For, ast.AsyncFor, ast.While, ast.FunctionDef, ast.AsyncFunctionDef, ast.ClassDef)):
+                continue
+            if isinstance(st, ast.Assign) and any(isinstance(t, ast.Name) and t.id == name for t in st.targets):
+                out.append(st.value)
+            elif isinstance(st, ast.AnnAssign) and isinstance(st.target, ast.Name) and st.target.id == name \
+                    and st.value is not None:
+                out.append(st.value)
+            elif isinstance(st, ast.AugAssign) and isinstance(st.target, ast.Name) and st.target.id == name:
+                out.append(st)
+            for f in ("body", "orelse", "finalbody"):
+                sub = getattr(st, f, None)
+                if isinstance(sub, list) and sub and isinstance(sub[0], ast.stmt):
+                    suite(sub)
+            for h in getattr(st, "handlers", []) or []:
+                suite(h.body)
+
+    suite(fn.body)  # type: ignore[attr-defined]
+    return out
+
+
+def _check_res(run: Run, prog: Program, dp: FuncInfo, request: str | None, res: str, deficits: str | None) -> None:
+    """C02.RES — shape of the reservation in the allocation loop (per path that creates a non-zero cell with
+    power m and cap U for the loop element E):
+
+      (a) exactly one local R grows by max(c, m): the reservation ledger and the share c of the group;
+          a pass that allocates nothing leaves R unchanged;
+      (b) c == (request - R) * q with the element's own ratio as a factor of q: the share is taken from
+          what is not yet reserved;
+      (c) what is stored for the group in the reserve table is U - m, or c - m on a path that established
+          m <= c <= U; what is stored in the deficit table is c - m on a path that established c <= m, and a
+          path that established c < m stores it.
+    Otherwise min_power + reserve exceeds the cap, or the reserved total exceeds the request and the top-up
+    takes the difference back from the first group, which ends inside its exclusion zone."""
+    pf = fields_of(prog, f"{MOD}:_Power")
+    ledgers: set[str] = set()
+    regions_seen: list[Region] = []
+    for r, p, e, a, elem in _nonzero_creations(prog, dp, pf):
+        if elem is None:
+            continue            # not in the loop over the availability records: reported by C02.CAP
+        if r not in regions_seen:
+            regions_seen.append(r)
+        mm = MinMax()
+        m_poly, cap = mm.ev(a["power"]), mm.ev(a["upper_bound"])
+        m_text, cap_text = u(a["power"]), u(a["upper_bound"])
+        cands = []
+        for name, val in p.env.items():
+            got = mm.clamp(mm.ev(val) - Poly.atom(name))
+            if got is not None and got[0] == "max" and len(got[1]) == 2 and m_poly in got[1] and got[1][0] != got[1][1]:
+                share = got[1][1] if got[1][0] == m_poly else got[1][0]
+                node = next((x for c in ast.walk(val) if isinstance(c, ast.Call) and u(c.func) == "max"
+                             for x in c.args if mm.ev(x) == share), None)
+                if node is not None:
+                    cands.append((name, share, u(node)))
+        ok = len(cands) == 1
+        run.check(ok, "C02.RES", dp.qual, f"allocation of {m_text} at line {e.lineno}",
+                  "on the path that allocates a group no local is raised by exactly max(share, min_power): what "
+                  "is reserved for the groups handled so far is not tracked, later shares are computed from power "
+                  "that is already taken and the reserved total can exceed the request",
+                  node=at(e.lineno), file=dp.file, path=p.describe(),
+                  instance=f"{dp.qual}: the reservation ledger grows by max(share, min_power) per allocated group")
+        if not ok:
+            continue
+        ledger, share, share_text = cands[0]
+        ledgers.add(ledger)
+        # (b)
+        q_req, q_led, bad = Poly(), Poly(), request is None
+        for mono, coeff in share.terms.items():
+            in_req = [x for x in mono if x[0] == request]
+            in_led = [x for x in mono if x[0] == ledger]
+            rest = tuple(x for x in mono if x[0] not in (request, ledger))
+            if in_req == [(request, 1)] and not in_led:
+                q_req = q_req + Poly({rest: coeff})
+            elif in_led == [(ledger, 1)] and not in_req:
+                q_led = q_led + Poly({rest: coeff})
+            else:
+                bad = True
+        ok = not bad and not q_req.is_zero() and q_req == -q_led and all(
+            (f"{elem}.ratio", 1) in mono for mono in q_req.terms)
+        run.check(ok, "C02.RES", dp.qual, f"share = {share_text}",
+                  f"the share of a group is not `({request} - {ledger}) * q` with the group's own ratio as a "
+                  "factor: it is not taken from what is still unreserved of the request",
+                  node=at(e.lineno), file=dp.file,
+                  instance=f"{dp.qual}: share = (request - reserved) * own ratio / ...")
+        # (c)
+        cell_keys = {u(t.slice) for _e2, t, v in writes(p) if isinstance(t, ast.Subscript) and u(v) == u(e.node)}
+        wrote_deficit = False
+        for e2, tgt, val in writes(p, lambda t, _v: isinstance(t, ast.Subscript) and u(t.value) in (res, deficits)):
+            v = mm.ev(val)
+            own_key = u(tgt.slice) in cell_keys  # type: ignore[attr-defined]
+            text = f"{u(tgt)} = {u(val)}"
+            if u(tgt.value) == res:  # type: ignore[attr-defined]
+                ok = own_key and (v == cap - m_poly or (v == share - m_poly and ordered(p, m_text, share_text)
+                                                        and ordered(p, share_text, cap_text)))
+                run.check(ok, "C02.RES", dp.qual, text,
+                          "the reserve stored for a group is neither `cap - min_power` nor `share - min_power` on a "
+                          "path that established min_power <= share <= cap: min_power + reserve can exceed the "
+                          "group's cap or fall below its minimum power",
+                          node=at(e2.lineno), file=dp.file, path=p.describe(),
+                          instance=f"{dp.qual}: reserve of a group is within [0, cap - min_power]")
+            else:
+                wrote_deficit = True
+                ok = own_key and v == share - m_poly and ordered(p, share_text, m_text)
+                run.check(ok, "C02.RES", dp.qual, text,
+                          "the deficit stored for a group is not `share - min_power` on a path that established "
+                          "share <= min_power: the covering loop takes the wrong amount from the other groups",
+                          node=at(e2.lineno), file=dp.file, path=p.describe(),
+                          instance=f"{dp.qual}: deficit of a group is share - min_power when the share is below it")
+        if deficits is not None and strictly(p, share_text, m_text):
+            run.check(wrote_deficit, "C02.RES", dp.qual, f"path with {share_text} < {m_text}",
+                      "a group whose share is below its minimum power is allocated its minimum power without the "
+                      "shortfall being recorded for covering: more than the request is handed out",
+                      node=at(e.lineno), file=dp.file, path=p.describe(),
+                      instance=f"{dp.qual}: a share below min_power records its deficit")
+    for ledger in sorted(ledgers):
+        starts = _bindings_outside_loops(dp.node, ledger)
+        run.check(bool(starts) and all(is_zero(v) for v in starts), "C02.RES", dp.qual,
+                  f"{ledger} = {', '.join(u(v) for v in starts) or '?'} before the loop",
+                  f"the reservation ledger `{ledger}` does not start at zero", node=dp.node, file=dp.file,
+                  instance=f"{dp.qual}: the reservation ledger starts at zero")
+    # a pass that allocates nothing reserves nothing
+    te = TermEval()
+    for r in regions_seen:
+        for p, _st in r.paths:
+            if any(ef.kind == "call" and callee(ef.node) == "_Power" and not is_zero(
+                    ctor_args(ef.node, pf, dp.qual).get("power", ast.Constant(1))) for ef in p.effects):
+                continue
+            for ledger in ledgers:
+                run.check(_delta(te, p, ledger).is_zero(), "C02.RES", dp.qual,
+                          f"{ledger} on a pass that allocates nothing",
+                          f"`{ledger}` changes on a pass through the allocation loop that allocates nothing",
+                          node=at(getattr(r.loop, "lineno", 0)), file=dp.file, path=p.describe(),
+                          instance=f"{dp.qual}: a skipped group reserves nothing")
 
 
 # --------------------------------------------------------------------------------------------- SOCAGG
@@ -789,14 +1299,71 @@ CONTROLS = [
     ("upper SoC limit aggregated without the capacity weights", MOD,
      "                sum(b.soc_upper_bound * b.capacity for b in batteries) / self.capacity\n",
      "                sum(b.soc_upper_bound for b in batteries) / len(batteries)\n", "C02.SOCAGG"),
+    ("reservation raised by min(share, min_power)", MOD,
+     "            reserved_power += max(calculated_power, ratio_data.min_power)\n",
+     "            reserved_power += min(calculated_power, ratio_data.min_power)\n", "C02.RES"),
+    ("share classification negated (reserve above the cap)", MOD,
+     "            if calculated_power > incl_bound:\n", "            if not calculated_power > incl_bound:\n", "C02.RES"),
+    ("share taken from request plus reserved", MOD,
+     "            power_to_distribute = power_w - reserved_power\n",
+     "            power_to_distribute = power_w + reserved_power\n", "C02.RES"),
+    ("shortfall of a share below min_power not recorded", MOD,
+     "                deficits[inverter_set] = calculated_power - ratio_data.min_power\n",
+     "                pass\n", "C02.RES"),
+    ("consume path asks for the supply tables", MOD,
+     "            components, supply=False\n", "            components, supply=True\n", "C02.TAB"),
+    ("inverter inclusion bound widened to the battery's", MOD,
+     "                    incl_bounds[inverter.component_id] = min(\n",
+     "                    incl_bounds[inverter.component_id] = max(\n", "C02.TAB"),
+    ("supply set-points not negated back", MOD,
+     "            result.distribution[inverter_id] *= -1\n", "            result.distribution[inverter_id] *= 1\n",
+     "C02.SIGN"),
+    ("supply request handed on without its sign flipped", MOD,
+     "            components, -1 * power_w, available_soc, incl_bounds, excl_bounds\n",
+     "            components, power_w, available_soc, incl_bounds, excl_bounds\n", "C02.SIGN"),
+    ("nothing-available exit commands a power", MOD,
+     "                inverter.component_id: 0.0\n                for _, inverters in components\n"
+     "                for inverter in inverters\n            }\n            return DistributionResult(final_distribution",
+     "                inverter.component_id: 1.0\n                for _, inverters in components\n"
+     "                for inverter in inverters\n            }\n            return DistributionResult(final_distribution",
+     "C02.AVAIL"),
+    ("distributed-power ledger starts at one", MOD,
+     "        distributed_power: float = 0.0\n", "        distributed_power: float = 1.0\n", "C02.BOOK"),
+    ("deficit covering loop guard negated", MOD,
+     "            while not is_close_to_zero(deficit) and deficit < 0.0:\n",
+     "            while is_close_to_zero(deficit) or not deficit < 0.0:\n", "C02.BOOK"),
+    ("split arm stores no set-point", MOD,
+     "                        new_distribution[inverter_id] = new_power\n", "                        pass\n", "C02.INV"),
 ]
 
 
+_NEEDS_ROLES = ("check_cap", "check_inv", "check_avail", "check_tab", "check_sign")
+
+
+def _guarded(f: Any, run: Run, prog: Program) -> None:
+    """Run one rule function; an anchor that is understood but recognisably wrong is a violation, and the
+    rules that need the roles bound through it are skipped (it is reported once)."""
+    try:
+        if f.__name__ in _NEEDS_ROLES:
+            _roles(prog)
+    except Wrong as w:
+        if not any(v.rule == w.rule and v.function == w.function and v.message == w.message for v in run.violations):
+            run.violation(w.rule, w.function, w.construct, w.message, node=at(w.lineno), file=w.file)
+        return
+    try:
+        f(run, prog)
+    except Wrong as w:
+        run.violation(w.rule, w.function, w.construct, w.message, node=at(w.lineno), file=w.file)
+
+
 def run_rules(run: Run, prog: Program) -> None:
-    check_cap(run, prog)
-    check_inv(run, prog)
-    check_avail(run, prog)
-    check_book(run, prog)
+    for f in (check_cap, check_inv, check_avail, check_exits, check_tab, check_sign):
+        _guarded(f, run, prog)
+    _run_rest(run, prog)
+
+
+def _run_rest(run: Run, prog: Program) -> None:
+    _guarded(check_book, run, prog)
     check_soc_agg(run, prog)
     check_adm(run, prog)
     check_adm_min(run, prog)
@@ -807,8 +1374,9 @@ def run_rules(run: Run, prog: Program) -> None:
 def _rules_for(rule_id: str):
     """The rule functions that can report `rule_id` (a control re-runs only those)."""
     table = {
-        "C02.CAP": (check_cap,), "C02.INV": (check_inv,), "C02.AVAIL": (check_cap, check_avail),
-        "C02.BOOK": (check_book,), "C02.SOCAGG": (check_soc_agg,),
+        "C02.CAP": (check_cap,), "C02.INV": (check_inv,), "C02.AVAIL": (check_cap, check_avail, check_exits),
+        "C02.BOOK": (check_book,), "C02.RES": (check_book,), "C02.SOCAGG": (check_soc_agg,),
+        "C02.TAB": (check_tab,), "C02.SIGN": (check_sign,),
         "C02.ADM": (check_adm, check_adm_min, check_adm_order), "C02.PURE": (check_pure,),
     }
     fns = table.get(rule_id)
@@ -817,7 +1385,7 @@ def _rules_for(rule_id: str):
 
     def run_selected(run: Run, prog: Program) -> None:
         for f in fns:
-            f(run, prog)
+            _guarded(f, run, prog)
     return run_selected
 
 
@@ -834,6 +1402,13 @@ def check(run: Run, prog: Program, tier: str) -> str:
     run.rule("C02.BOOK", "per path of the reservation loops the distributed-power ledger changes by what the "
              "cells receive, and deficit covering moves reserve from the donor's entry to the deficit")
     run.rule("C02.SOCAGG", "a group's SoC and its two SoC limits are the same aggregate of the batteries' values")
+    run.rule("C02.RES", "per allocating path: the reservation ledger grows by max(share, min_power), the share is "
+             "(request - reserved) * own ratio / ..., the stored reserve lies in [0, cap - min_power], a share below "
+             "min_power records its deficit")
+    run.rule("C02.TAB", "the bound tables hold each component's own bound of the table's kind in the requested "
+             "direction (upper / negated lower); the entry points ask for their own direction")
+    run.rule("C02.SIGN", "consume: request unchanged, result untouched; supply: request negated, every set-point "
+             "negated back")
     run_rules(run, prog)
     run.floor("C02.CAP", 4)
     run.floor("C02.INV", 4)
@@ -842,9 +1417,12 @@ def check(run: Run, prog: Program, tier: str) -> str:
     run.floor("C02.PURE", 8)
     run.floor("C02.BOOK", 3)
     run.floor("C02.SOCAGG", 1)
+    run.floor("C02.RES", 5)
+    run.floor("C02.TAB", 6)
+    run.floor("C02.SIGN", 4)
     from ..engine.controls import run_controls
 
-    run_controls(run, CONTROLS, run_rules, tier, select=_rules_for)
+    run_controls(run, CONTROLS, run_rules, tier, base_prog=prog, select=_rules_for)
     run.undecided("that proportional shares stay between minimum power and the inclusion bound for "
                   "every real input, and group totals after deficit covering (relational numeric "
                   "invariants over dict-indexed cells)")
